@@ -114,6 +114,11 @@ def gen(rng, tier):
         yield line(s, to, None, ver, R(key=b"another"), "mac-does-not-verify")
         yield line(s, to, None, ver, reply(3 - ver, 1, 0, good), "other-pdu-version")
         yield line(s, to, None, ver, pdu.err_pdu(0x03, 0x101) if ver == 2 else tlv(0x300, pdu.err_pdu(0x303, 0x101)), "error-pdu")
+        if ver == 2:
+            # an error payload beside a well-formed status-0 response, rightly MACed: the request has failed
+            body = tlv(0x01, be(1)) + tlv(0x04, be(0)) + good.enc()
+            for payloads in (pdu.err_pdu(0x03, 0x101) + tlv(0x02, body), tlv(0x02, body) + pdu.err_pdu(0x03, 0x101)):
+                yield line(s, to, None, ver, pdu.pdu_v2(0x321, payloads, 1, KEY), "error-payload-beside-the-response")
         yield line(s, to, None, ver, R()[:-3], "malformed")
         yield line(s, to, None, ver, b"", "malformed")
         if t > 1:
